@@ -171,7 +171,10 @@ def build(desc, center=_NOARG, rotate=None, rgrid=None):
 
     rg = make_rgrid(desc) if rgrid is None else rgrid
     c = desc["center"] if center is _NOARG else center
-    kw = {"rotate": int(desc["rotate"] if rotate is None else rotate), "method": desc["method"]}
+    rot = int(desc["rotate"] if rotate is None else rotate)
+    # NumPy-integer seeds are documented as admissible (regression of fix f2aca48): used whenever the
+    # descriptor also passes its sequences as arrays
+    kw = {"rotate": np.int64(rot) if desc.get("as_array") else rot, "method": desc["method"]}
     if c is not None:
         kw["center"] = np.array(c, dtype=float)
     route = desc["route"]
